@@ -47,6 +47,20 @@ type History struct {
 	Order    []int
 	Ops      []string
 	nextID   int
+	Ext      map[int]bool // rows written by the external writer
+}
+
+// allExternal reports whether every row id belongs to an externally written file.
+func (h *History) allExternal(ids []int) bool {
+	if len(ids) == 0 {
+		return false
+	}
+	for _, id := range ids {
+		if !h.Ext[id] {
+			return false
+		}
+	}
+	return true
 }
 
 func partitionFunc(mode string) bs.PartitionFunc {
@@ -260,9 +274,13 @@ func (h *History) externalFile(r Rng, rep *Report) {
 		rep.Add(Finding{Kind: "disagreement", Check: "external-writer", Detail: err.Error(), Replay: h.Ops})
 		return
 	}
+	if h.Ext == nil {
+		h.Ext = map[int]bool{}
+	}
 	for _, sr := range all {
 		h.Rows[sr.ID] = sr
 		h.Order = append(h.Order, sr.ID)
+		h.Ext[sr.ID] = true
 	}
 	h.Ops = append(h.Ops, fmt.Sprintf("external file %s with %d rows", name, len(all)))
 }
